@@ -184,7 +184,7 @@ def c06(tier):
                 dict(model="liar", faults=True, configs=cfgs(["heap8d", "fence8d"], (R,))), rnd(tier, ["heap8c", "stack8c"], faultpct=30)]
     return [rnd(tier, ["heap8c", "heap8d", "heap160", "stack8c", "fence24d", "heap0d"], nvecs=3, faultpct=30),
             dict(model="elem", faults=True, configs=cfgs(["heap8d", "heap160", "fence8d"], (R, D))), dict(model="range", faults=True, configs=cfgs(["heap8d", "heap160", "fence8d"], (R, D))),
-            dict(model="clone", faults=True, configs=cfgs(["heap8c", "fence24d", "heap160"], (R, D))), dict(model="lazy", faults=True, configs=cfgs(["heap8c", "heap160"], (R, D))),
+            dict(model="clone", faults=True, configs=cfgs(["heap8c", "fence24d", "heap160"], (R, D))), dict(model="lazyf", faults=True, configs=cfgs(["heap8c", "heap160", "heap3c"], (R, D))),
             dict(model="clonefixed", faults=True, configs=cfgs(["stackn3", "stack8c"], (R,))), dict(model="fixed", faults=True, configs=cfgs(["stack8x3p"], (R,))),
             dict(model="liar", faults=True, configs=cfgs(["heap8d", "fence8d", "heap160", "stack24x3"], (R, D)))]
 
